@@ -270,11 +270,11 @@ theorem import_exports_toplevel (env : Env) (ctx : Frame) (f : Nat) (cur : Optio
   rfl
 
 def impEnv : Env :=
-  [ { layout := [.setVar 3 "mine", .importAs 1 8, .emitKeys 8, .text "|", .emitAttr 8 2, .text "|",
+  [ { layout := [.setVar 3 "mine", .importAs 1 8, .emitAttr 8 3, .text "|", .emitAttr 8 2, .text "|",
                  .fromImport 1 3 7, .text "[", .emitVar 7, .text "]", .fromImport 1 4 6, .callVar 6],
       blocks := [] },
     { layout := [.text "<m>", .setVar 2 "a", .defMacro 4 "<mac>", .setVar 2 "b"], blocks := [] } ]
 
-example : render impEnv [(3, .str "ctx")] 10 0 = .ok ["v2,v4", "|", "b", "|", "[", "]", "<mac>"] := by decide
+example : render impEnv [(3, .str "ctx")] 10 0 = .ok ["|", "b", "|", "[", "]", "<mac>"] := by decide
 
 end MJ.C06
